@@ -602,3 +602,14 @@ Fixpoint pixels (l : list Q) : list (Q * Q) :=
   end.
 
 Definition exact (x : Q) : Q := x.     (* rnd of exact arithmetic *)
+
+(* ------------------------------------------------------------------------------------------ *)
+(* CzernyTurnerSpectrometer.resolution (spectrometer.py:332-351) as a formula.  The trigonometric values of the
+   diffraction angle (cosa = cos(angle), tana = tan(angle)) are data, sqrt is a function argument; everything
+   else is arithmetic:  p = 0.5 m g w;  dxdp (sqrt(cos^2 - p^2) - p tan) / (m fl g)                              *)
+(* ------------------------------------------------------------------------------------------ *)
+Definition res_p (k : ct_key) (w : Q) : Q := (1 # 2) * inject_Z (k_order k) * k_grating k * w.
+Definition res_den (k : ct_key) : Q := inject_Z (k_order k) * k_focal k * k_grating k.
+Definition resolution_of (sqrt : Q -> Q) (cosa tana : Q) (k : ct_key) (w : Q) : Q :=
+  let p := res_p k w in
+  k_spacing k * (sqrt (cosa * cosa - p * p) - p * tana) / res_den k.
